@@ -254,6 +254,9 @@ pub struct ScriptedIter<E: Elem> {
     pub script: Vec<u8>, // 1 = Some, 0 = None, 2 = panic; past the end: None
     pub pos: usize,
     pub hint: Option<(usize, Option<usize>)>, // None = truthful
+    /// a value with a destructor that the source owns (like the unread tail of a `vec.into_iter().take(n)`): dropped
+    /// exactly when the source is dropped
+    pub guard: Vec<E>,
     pub _p: std::marker::PhantomData<E>,
 }
 impl<E: Elem> Iterator for ScriptedIter<E> {
@@ -601,7 +604,7 @@ fn default_form(op: &str) -> &'static str {
     match op {
         "serialize" => "ref",
         "next" | "next_back" | "nth" | "nth_back" | "len" | "size_hint" | "as_slice" | "as_mut_swap" | "debug" | "iter_clone" | "clone" | "box_clone" | "clone_from" | "iter_clone_from" => "ref",
-        "iter_position" | "iter_rposition" | "iter_any" | "iter_all" | "iter_find" | "iter_rfind" | "deserialize_in_place" => "ref",
+        "iter_position" | "iter_rposition" | "iter_any" | "iter_all" | "iter_find" | "iter_rfind" | "iter_find_map" | "deserialize_in_place" => "ref",
         _ => "own",
     }
 }
@@ -781,6 +784,14 @@ fn exec<E: Elem>(op: &str, vals: &mut Vec<Val<E>>, forms: &[String], arg: i64, m
             with_iter!(take(vals, 0), it => { if let Some(x) = it.last() { o.vals.push(x) } }, bad());
             o
         }
+        "collect_iter_take" => {
+            let mut o = Outcome::new();
+            with_iter!(take(vals, 0), it => with_len!(uarg, N => match GenericArray::<E, N>::try_from_iter(it.take(uarg)) {
+                Ok(a) => o.outs.push(a.wrap()),
+                Err(_) => o.err = true,
+            }, bad()), bad());
+            o
+        }
         "collect_iter" => {
             let mut o = Outcome::new();
             with_iter!(take(vals, 0), it => with_len!(uarg, N => match GenericArray::<E, N>::try_from_iter(it.filter(|_| true)) {
@@ -808,12 +819,13 @@ fn exec<E: Elem>(op: &str, vals: &mut Vec<Val<E>>, forms: &[String], arg: i64, m
             o
         }
         // searching consumers on `&mut iter`: scripted predicate (ends the search at call index `arg`)
-        "iter_position" | "iter_rposition" | "iter_any" | "iter_all" | "iter_find" | "iter_rfind" => {
+        "iter_position" | "iter_rposition" | "iter_any" | "iter_all" | "iter_find" | "iter_rfind" | "iter_find_map" => {
             let mut o = Outcome::new();
             with_iter!(&mut vals[0], it => match op {
                 "iter_position" => o.res = it.position(|x| ctx.pred::<E, E>(x, true)).map(|p| p as i64).unwrap_or(-1),
                 "iter_rposition" => o.res = it.rposition(|x| ctx.pred::<E, E>(x, true)).map(|p| p as i64).unwrap_or(-1),
                 "iter_any" => o.res = it.any(|x| ctx.pred::<E, E>(x, true)) as i64,
+                "iter_find_map" => o.res = it.find_map(|x| if ctx.pred::<E, E>(x, true) { Some(1i64) } else { None }).unwrap_or(0),
                 "iter_all" => o.res = it.all(|x| ctx.pred::<E, E>(x, false)) as i64,
                 "iter_find" => o.vals.extend(it.find(|x| ctx.pred::<E, &E>(x, true))),
                 _ => o.vals.extend(it.rfind(|x| ctx.pred::<E, &E>(x, true))),
@@ -924,7 +936,7 @@ fn exec<E: Elem>(op: &str, vals: &mut Vec<Val<E>>, forms: &[String], arg: i64, m
         "builder_extend" | "intrusive_extend" => {
             let _pre = crate::events::Bypass::new();
             let script: Vec<u8> = jarr(st, "script").into_iter().map(|x| x as u8).collect();
-            let src = ScriptedIter::<E> { script, pos: 0, hint: Some((0, None)), _p: std::marker::PhantomData };
+            let src = ScriptedIter::<E> { script, pos: 0, hint: Some((0, None)), guard: std::mem::take(&mut elems), _p: std::marker::PhantomData };
             let mut o = Outcome::new();
             drop(_pre);
             with_len!(n, N => {
@@ -1137,7 +1149,7 @@ fn exec<E: Elem>(op: &str, vals: &mut Vec<Val<E>>, forms: &[String], arg: i64, m
                 let hi = h[1].as_i64().unwrap();
                 (lo, if hi < 0 { None } else { Some(wide(hi)) })
             });
-            let src = ScriptedIter::<E> { script, pos: 0, hint, _p: std::marker::PhantomData };
+            let src = ScriptedIter::<E> { script, pos: 0, hint, guard: std::mem::take(&mut elems), _p: std::marker::PhantomData };
             let mut o = Outcome::new();
             drop(_pre);
             if n == 2_000_000_000 {
